@@ -15,6 +15,8 @@ def opname(op):
     if op[0] == "add":
         return f"add({'list' if op[3] else 'block'}{', fail_on_duplicate_key=' + str(op[2]) if op[2] is not None else ''})"
     if op[0] == "remove":
+        if op[1] and op[1][0][0] == "inner":
+            return "remove(block held inside a duplicate wrapper)"
         return f"remove({'list' if op[2] else 'block'})"
     return f"replace(fail_on_duplicate_key={'default' if op[3] is None else op[3]})"
 
@@ -24,7 +26,7 @@ def fmt_hist(hist, op):
         if o[0] == "add":
             return f"add({','.join(o[1])}{', fail=' + str(o[2]) if o[2] is not None else ''})"
         if o[0] == "remove":
-            return "remove(" + ",".join(x[1] if x[0] == "blk" else f"dup[{x[1]}]" for x in o[1]) + ")"
+            return "remove(" + ",".join(x[1] if x[0] == "blk" else f"inner-of-dup[{x[1]}]" if x[0] == "inner" else f"dup[{x[1]}]" for x in o[1]) + ")"
         x = o[1]
         return f"replace({x[1] if x[0] == 'blk' else 'dup[' + x[1] + ']'} -> {o[2]}{', fail=' + str(o[3]) if o[3] is not None else ''})"
     return "; ".join(one(o) for o in list(hist) + [op])
@@ -80,7 +82,7 @@ def run(P: Program, rep: Report):
                          f"{fi.qualname} touches Library.{n.attr} directly")
     lib = P.cls("library", "Library")
     own = sum(1 for f in lib.methods.values() for n in ast.walk(f.node) if isinstance(n, ast.Attribute) and n.attr in priv)
-    rep.require_count("C08.R1", "accesses of the private state inside Library (positive control)", own, 15)
+    rep.require_count("C08.R1", "accesses of the private state inside Library (positive control)", own, 4)
     if not ext:
         rep.ok("C08.R1", "private-state:library-only", lib.loc, f"{own} accesses, all inside Library")
 
@@ -111,7 +113,25 @@ def run(P: Program, rep: Report):
             continue
         name = opname(op)
         hs = fmt_hist(hist, op)
-        if o["ref_outcome"] == "ok":
+        if o["ref_outcome"] == "either":
+            if o["outcome"] == "ValueError":
+                changed = [v for v in VIEWS if o["after"][v] != o["before"][v]]
+                if changed:
+                    fails.setdefault(("C08.R7", f"{name}:library-changed-by-raising-call"),
+                                     (hs, f"{name} raises ValueError after changing the library: {changed[0]} was {o['before'][changed[0]]!r}, is {o['after'][changed[0]]!r}", o))
+                else:
+                    okc["R7"] += 1
+            elif o["outcome"] == "ok":
+                bad = [v for v in VIEWS if o["after"][v] != o["ref_after"][v]]
+                if bad:
+                    v = bad[0]
+                    fails.setdefault(("C08.R2", f"{name}:view-{v}"), (hs, f"after {name} (accepted as removal of its duplicate wrapper): {v} = {o['after'][v]!r}, contract {o['ref_after'][v]!r}", o))
+                else:
+                    okc["R2"] += 1
+            else:
+                fails.setdefault(("C08.R2", f"{name}:raises-{o['outcome']}"), (hs, f"{name} raises {o['outcome']}", o))
+                continue
+        elif o["ref_outcome"] == "ok":
             if o["outcome"] != "ok":
                 fails.setdefault(("C08.R2", f"{name}:raises-{o['outcome']}"), (hs, f"{name} raises {o['outcome']} ({o.get('exc_repr')}) where the contract has no error", o))
                 continue
